@@ -77,9 +77,19 @@ def task(arg):
         fld.__form_init__(FakeForm())
         holder['typ'], holder['empty'] = typ, empty
         try:
-            return ('value', fld.value({}, {}))
+            out = fld.value({}, {})
         except TypeError as ex_:
             return ('TypeError', str(ex_))
+        # is it the type's empty value?  (decided inside the exploration: the
+        # comparison may involve symbolic text)
+        if out is empty:
+            is_empty = True
+        elif rt.type_(out) is type(empty) and empty is not None:
+            is_empty = bool(out == empty)
+        else:
+            is_empty = False
+        holder['is_empty'] = is_empty
+        return ('value', out)
     chk = z3.Solver()
     chk.set('timeout', 20000)
     for p in ex.explore(body):
@@ -100,7 +110,7 @@ def task(arg):
             if kind != 'value':
                 ok, what = False, 'a %s returned by the definition of a %s was rejected (%s)' % (tag, fname, out)
             elif tag in ('none', 'blank'):
-                if not (out is empty or (out == empty and type(out) is type(empty))):
+                if not holder.get('is_empty'):
                     ok, what = False, '%s from the definition is stored as %r instead of the empty value %r' % (tag, out, empty)
             else:
                 t = rt.type_(out)
